@@ -84,6 +84,13 @@ namespace awkward {
                                : stops[i] - stops[i - 1]);
 
       while (dst.get() == nullptr  ||  dst.get()->length() < length) {
+        if (partitionid >= numpartitions()) {
+          // the data are exhausted: the remaining target partitions are empty
+          if (dst.get() == nullptr) {
+            dst = partitions_[0].get()->getitem_range_nowrap(0, 0);
+          }
+          break;
+        }
         ContentPtr piece(nullptr);
         ContentPtr src = partitions_[(size_t)partitionid];
         int64_t available = src.get()->length() - index;
